@@ -23,27 +23,27 @@ for pid, what in [
 ]:
     add(pid, MC, "seqx-reasm",
         "explicit-state BFS to closure over op sequences on the real Reassembler (canonical state keys, replay-based successors) + all op sequences to depth d without state merging",
-        "Exhaustive for the stated alphabet: full reachable closure of (real object graph, monitor state) for every configuration (maxInFlight x timeout x window base incl. sequence 0 and the 2^32 roll-over), plus every op sequence up to depth 6/7 with no abstraction, a record-type pass, timed configurations (records stamped around the virtual present or decades apart), windows straddling 2^16/2^24/2^31/2^32 and 2^31 jumps, raw pushes from a reused overwritten buffer, a re-entrant Stream, and scale scenarios (3000 gapped events released by one call, 20000/40000 records in one event, 20000/40000 buffered events). Decides: " + what + ". Level: bounded-exhaustive model checking of the implementation itself; nothing is sampled.",
+        "Exhaustive for the stated alphabet: full reachable closure of (real object graph, monitor state) for every configuration (maxInFlight x timeout x window base incl. sequence 0 and the 2^32 roll-over), plus every op sequence up to depth 6/7 with no abstraction, a record-type pass, timed configurations (records stamped around the virtual present or decades apart), windows straddling 2^16/2^24/2^31/2^32 and 2^31 jumps, raw pushes from a reused overwritten buffer, a re-entrant Stream, raw records whose sequence field overflows 32 bits, timeouts of 4 and 2.5 ticks, record types / texts / thresholds HARVESTED from the tree's reassembler.go (engine/harvest), pile-up schedules of 5-25 goroutines (C01), and scale scenarios (3000 gapped events released by one call, 20000/40000 records in one event, 20000/40000 buffered events). Decides: " + what + ". Level: bounded-exhaustive model checking of the implementation itself; nothing is sampled.",
         REASM_NOTE, "DESIGN.md §3.3, §5 " + pid)
 
 add("C11", MC, "sched-conc",
     "stateless DFS over all thread interleavings (controlled cooperative scheduler at lock/atomic/call/callback granularity, whole tree when small else iterative preemption bound) + separate free-running -race pass",
-    "Every schedule of every 2-thread program of 1-2 ops (and 3-thread programs) over {Push(a,mid),Push(a,final),Push(b,mid),Push(a,EOE),Maintain,Close} x maxInFlight 0-2 x passive/re-entrant Stream variants (incl. Close from a callback), a timed family (finite timeout, Tick+Maintain) and a payload family (records with disagreeing kernel timestamps, bytes pushed from a buffer the caller overwrites afterwards) on the real instrumented Reassembler: whole schedule tree where small, otherwise all schedules within the preemption bound (quick 2, thorough 3). Oracle: no deadlock/panic, single-sequence callbacks, at-most-once delivery, every message whose push returned before Close was invoked delivered exactly once, exactly one Close succeeds, Maintain after a returned successful Close errors. Data-race freedom is sampled by a free-running -race pass of the same driver bodies (labelled sampling).",
+    "Every schedule of every 2-thread program of 1-2 ops (and 3-thread programs) over {Push(a,mid),Push(a,final),Push(b,mid),Push(a,EOE),Maintain,Close} x maxInFlight 0-2 x passive/re-entrant Stream variants (incl. Close from a callback), a timed family (finite timeout, Tick+Maintain) and a payload family (records with disagreeing kernel timestamps, bytes pushed from a buffer the caller overwrites afterwards) , pile-up schedules (every thread driven to the same scheduling point, for every point) of 5-13 goroutines, a Stream with failing Close/Flush/Sync, and sequential scale histories just above harvested thresholds, on the real instrumented Reassembler: whole schedule tree where small, otherwise all schedules within the preemption bound (quick 2, thorough 3). Oracle: no deadlock/panic, single-sequence callbacks, at-most-once delivery, every message whose push returned before Close was invoked delivered exactly once, exactly one Close succeeds, Maintain after a returned successful Close errors. Data-race freedom is sampled by a free-running -race pass of the same driver bodies (labelled sampling).",
     "Trusted: shim fidelity to sync/atomic semantics; sequential consistency; scheduling points at lock/atomic/call/callback granularity are sufficient only for data-race-free code, which the -race pass samples; preemption bound where the tree is large (reported per run).",
     "DESIGN.md §3.2, §5 C11")
 
 CLIENT_NOTE = "Trusted: the simulated kernel (engine/ksim: ACK then data replies in the order the real kernel sends them, one reused poisoned receive buffer) behind the exported Netlink field; virtual clock for the EAGAIN back-off; each op starts with an empty socket queue; nothing ties the simulation to a real audit kernel (deliberately: the sandbox's audit subsystem is live)."
 add("C08", MC, "envdfs-client",
     "deviation-bounded exhaustive DFS over environment answers (errno verdicts, unsolicited events, transient receive failures, malformed/foreign ACKs) x all short op histories, on the real client against a simulated kernel",
-    "Every history of <=2 (quick) / <=3 (thorough) command methods x kernels holding 0/1/2 rules x every combination of at most 2 (3) non-default environment answers, executed on the real AuditClient. Plus sweeps for single commands: every nlmsg_flags bit on every reply, every unsolicited record type 1100-2999 and flags bit in front of every datagram, every errno 1-133/512-530/4095 as verdict, kernels holding 5 rules, AUDIT_GET replies of 32/36/40/48 bytes, a reply overtaking its ACK, every datagram flush against an inaccessible page. Oracle per op: nil iff every verdict it depended on was 0 (tolerated deviations must not change the result), errors identify the errno (errors.Is or distinct text per errno), returned status/rules/count equal what the kernel sent for that request, a replaced/foreign/short ACK is never accepted.",
+    "Every history of <=2 (quick) / <=3 (thorough) command methods x kernels holding 0/1/2 rules x every combination of at most 2 (3) non-default environment answers, executed on the real AuditClient. Plus sweeps for single commands: every nlmsg_flags bit on every reply, every unsolicited record type 1100-2999 and flags bit in front of every datagram, every errno 1-133/512-530/4095 as verdict, kernels holding 5 rules and 50 realistic audit_rule_data payloads (buflen 0-9 x tail 0-4), receive failures reported bare / %w-wrapped / as *os.SyscallError, AUDIT_GET replies of 32/36/40/48 bytes, a reply overtaking its ACK, every datagram flush against an inaccessible page. Oracle per op: nil iff every verdict it depended on was 0 (tolerated deviations must not change the result), errors identify the errno (errors.Is or distinct text per errno), returned status/rules/count equal what the kernel sent for that request, a replaced/foreign/short ACK is never accepted.",
     CLIENT_NOTE, "DESIGN.md §3.3, §5 C08")
 add("C16", EX, "enum-client",
     "bounded-exhaustive enumeration of setter arguments / reply buffers decoded at fixed UAPI offsets by an independent decoder",
-    "Every setter x value domain (all one-bit / all-but-one-bit values, boundaries, all 2^10 (quick) / 2^16 (thorough) low and high half-words) x both wait modes: exactly one AUDIT_SET, REQUEST|ACK, 44-byte payload with one mask bit and the value at its UAPI offset; GetStatus over one-hot field patterns; 20 exported constants against numbers transcribed from linux/audit.h; GetStatus replies of every length 0..80 (flush against an inaccessible page) and then every setter on the same client; a reply overtaking its ACK; FromWireFormat over every length 0..80 x 3 contents x 5 placements (incl. flush against PROT_NONE pages at either end: an access outside the buffer faults). Complete over the stated finite domains.",
+    "Every setter x value domain (all one-bit / all-but-one-bit values, boundaries, all 2^10 (quick) / 2^16 (thorough) low and high half-words) x both wait modes: exactly one AUDIT_SET, REQUEST|ACK, 44-byte payload with one mask bit and the value at its UAPI offset; GetStatus over one-hot field patterns; 20 exported constants against numbers transcribed from linux/audit.h; GetStatus replies of every length 0..80 (flush against an inaccessible page) and then every setter on the same client; every ordered pair of setters x both modes x verdicts {0,EPERM,EINVAL} on one client (each call sends exactly one request); reply lengths 32-48 x every field x values 0-600 and every bit; a reply overtaking its ACK; FromWireFormat over every length 0..80 x 3 contents x 5 placements (incl. flush against PROT_NONE pages at either end: an access outside the buffer faults). Complete over the stated finite domains.",
     "Trusted: refdata transcription of linux/audit.h; little-endian host; simulated kernel records the request bytes.", "DESIGN.md §5 C16")
 add("C17", MC, "envdfs-client",
     "exhaustive enumeration of well-formed op histories x errno assignments against a simulated kernel + all interleavings of concurrent Close under the controlled scheduler + free-running -race pass",
-    "Every well-formed history of <=4 (quick) / <=5 (thorough) ops over {NoWait setters, WaitForPendingACKs, WaitForReply setter, SetPID both modes, GetRules, Close} x every assignment of errno {0,EPERM} to at most 2 (4) requests, followed by drain calls: each NoWait ACK consumed exactly once and in order, first error returned, nothing pending => zero receives, Close closes once / clears the PID iff SetPID was used / later calls are no-ops, rule data unchanged by later receives (poisoned reused buffer, datagrams flush against an inaccessible page); receive faults inside WaitForPendingACKs; Close results {nil,EINTR,EBADF,EIO}; sweeps of every reply flags bit and every errno over histories of <=3 ops; every schedule of 2-3 threads calling Close concurrently; data races sampled by a -race pass.",
+    "Every well-formed history of <=4 (quick) / <=5 (thorough) ops over {NoWait setters, WaitForPendingACKs, WaitForReply setter, SetPID both modes, GetRules, Close} x every assignment of errno {0,EPERM} to at most 2 (4) requests, followed by drain calls: each NoWait ACK consumed exactly once and in order, first error returned, nothing pending => zero receives, Close closes once / clears the PID iff SetPID was used / later calls are no-ops, rule data unchanged by later receives (poisoned reused buffer, datagrams flush against an inaccessible page); receive faults inside WaitForPendingACKs; Close results {nil,EINTR,EBADF,EIO}; sweeps of every reply flags bit and every errno over histories of <=3 ops; 300/1000/harvested-N pending ACKs with refused requests drained in stages; all 210 interleavings of three clients in one process; every schedule of 2-3 threads calling Close concurrently; data races sampled by a -race pass.",
     CLIENT_NOTE + " Stop-or-continue after the first ACK error is not fixed by the statement: either accepted.", "DESIGN.md §5 C17")
 add("C18", EX, "enum-netlink",
     "bounded-exhaustive enumeration of messages/datagrams over a simulated socket layer behind the syscall seam + all interleavings of concurrent Send under the controlled scheduler + -race pass + conformance replay against the real kernel's verbatim echo on NETLINK_ROUTE",
@@ -52,46 +52,46 @@ add("C18", EX, "enum-netlink",
 PARSE_NOTE = "Trusted: the independent formatter / kernel-side encoder in the harness (audit_log_untrustedstring rule, struct sockaddr layouts), refdata errno table; complete inside the stated alphabets and lengths, silent outside them."
 add("C04", EX, "enum-parse",
     "bounded-exhaustive input enumeration against an independent header formatter (complete for the 65536 types and 1000 millisecond values; full boundary products; all prefixes / single-byte corruptions for the error side)",
-    "All 65536 record types x 3 spellings (name, lower case, UNKNOWN[n]) (x 27 header/body variants in thorough), all 1000 ms strings, the full product of boundary types x seconds (to 2^34-1) x ms x sequences (to 2^32-1, leading zeros) x 30 hostile bodies, and for the error side every proper prefix and every single-byte substitution/deletion of boundary headers plus out-of-range numbers and unknown type names; every byte value and a shared menu of multi-byte fragments (all Unicode white space, BOM/zero-width, malformed UTF-8) at start/middle/end of the body; bodies up to 2^20 bytes. Oracle: RecordType/Timestamp(UTC)/Sequence/RawData equal what was written, ParseLogLine and Parse agree, ToMapStr header keys win over body keys - also after the caller edited the map it was given -, must-fail headers yield (nil, err).",
+    "All 65536 record types x 3 spellings (name, lower case, UNKNOWN[n]) (x 27 header/body variants in thorough), all 1000 ms strings, the full product of boundary types x seconds (to 2^34-1) x ms x sequences (to 2^32-1, leading zeros) x 30 hostile bodies, and for the error side every proper prefix and every single-byte substitution/deletion of boundary headers plus out-of-range numbers and unknown type names; every byte value and a shared menu of multi-byte fragments (all Unicode white space, BOM/zero-width, malformed UTF-8) at start/middle/end of the body; bodies up to 2^20 bytes; key=value pairs over the string literals harvested from the tree's auparse package x record-type classes. Oracle: RecordType/Timestamp(UTC)/Sequence/RawData equal what was written, ParseLogLine and Parse agree, ToMapStr header keys win over body keys - also after the caller edited the map it was given -, must-fail headers yield (nil, err).",
     PARSE_NOTE, "DESIGN.md §5 C04")
 add("C05", EX, "enum-parse",
     "bounded-exhaustive token-sequence enumeration with crash-isolated workers (panic recovery, no-progress watchdog, trace re-run)",
-    "All token sequences of length <=3 (quick) / <=4 (thorough, 5.4e7 inputs) over an alphabet holding one token per literal/branch the parser reacts to, as whole lines and as bodies behind a valid header x 16 record-type classes; structured key=token bodies; all 65536 types x short bodies; every truncation of every golden log line; long values (60..70000) x 13 fillings x 24 key prefixes; padding runs of every length 0..80 behind 7 header forms; hex multi-key lists with repeats; the multi-byte menu in keys/values/quotes of every record-type class; 8 earlier messages re-inspected after other parses. Oracle: no panic, no hang, msg==nil <=> err!=nil, Data/Tags/ToMapStr repeatable, error key present iff Data failed.",
+    "All token sequences of length <=3 (quick) / <=4 (thorough, 5.4e7 inputs) over an alphabet holding one token per literal/branch the parser reacts to, as whole lines and as bodies behind a valid header x 16 record-type classes; structured key=token bodies; all 65536 types x short bodies; every truncation of every golden log line; long values (60..70000) x 13 fillings x 24 key prefixes; padding runs of every length 0..80 behind 7 header forms; hex multi-key lists with repeats; the multi-byte menu in keys/values/quotes of every record-type class; numeric fields x edges of every width 2^7..2^64; key pairs differing by -/_/./case asked 24 times; sequences over harvested literals; 8 earlier messages re-inspected after other parses. Oracle: no panic, no hang, msg==nil <=> err!=nil, Data/Tags/ToMapStr repeatable, error key present iff Data failed.",
     PARSE_NOTE, "DESIGN.md §5 C05")
 add("C12", EX, "enum-parse",
     "bounded-exhaustive round trip: independent kernel-side encoder -> Data(), over all short strings of a byte-class alphabet, all IPv4 ports, table-complete syscall/errno enumeration",
-    "Every string of length <=3 (quick) / <=4 (thorough) over a 14-byte class alphabet (minus the stated exclusions) for each decoded field of SYSCALL/CWD/PATH/PROCTITLE/EXECVE/TTY/USER_CMD/USER_LOGIN; all 65536 IPv4 ports x addresses, every single-octet variation, IPv6 and unix addresses; every (arch, nr) of the published tables and nr+-1 for SYSCALL and SECCOMP; every errno 1..4095 both signs (names checked against asm-generic errno, alias-safe); result/unset/errno normalisation for ALL 65536 record types; placeholder dropping (key absent, record intact) and 41 sentinel-looking values that must stay; every byte value and long values per decoded field.",
+    "Every string of length <=3 (quick) / <=4 (thorough) over a 14-byte class alphabet (minus the stated exclusions) for each decoded field of SYSCALL/CWD/PATH/PROCTITLE/EXECVE/TTY/USER_CMD/USER_LOGIN; all 65536 IPv4 ports x addresses, every single-octet variation, IPv6 and unix addresses; every (arch, nr) of the published tables and nr+-1 for SYSCALL and SECCOMP; every errno 1..4095 both signs (names checked against asm-generic errno, alias-safe); result/unset/errno normalisation for ALL 65536 record types; placeholder dropping (key absent, record intact) and 41 sentinel-looking values that must stay; every byte value, long values and harvested literals per decoded field, also in records whose other fields take rare paths (unknown syscall / ABI, SECCOMP).",
     PARSE_NOTE, "DESIGN.md §5 C12")
 
 RULE_NOTE = "Trusted: refdata transcription of linux/audit.h / errno / stat constants; the harness's fixed-offset decoder of struct audit_rule_data and its structural knowledge of the rule it rendered; amd64 little-endian host (b64=x86_64, b32=i386); complete inside the stated menus, silent outside them."
 add("C06", EX, "enum-rule",
     "bounded-exhaustive enumeration of structurally generated rules, bytes decoded at fixed UAPI offsets by an independent decoder and compared word for word with an expectation built from refdata",
-    "Every list x action x -a/-A x 0-3 keys; every field x 8 operators x a value menu per field class x lists; all 121 inter-field pairs x 3 operators; ordered pairs (triples in thorough) of a 16-filter subset; field counts 0..66 with 0/1/3 keys; every syscall number 0..2100 and extremes to 2^64 x {no arch,b64,b32}; number pairs in both -S forms; every name of the syscall tables of all seven ABIs with the expected number taken from gdb's transcription of the kernel's syscall.tbl where it knows the row (refdata/syscalls_gdb.txt); file watches x all 16 permission subsets x file/dir/missing x 0-2 keys. A rejected rule is always acceptable; an accepted rule must equal the expectation in flags, action, every (field,operator,value) triple in order, joined keys, buffer layout, buflen, padding, total length and mask bits.",
+    "Every list x action x -a/-A x 0-3 keys; every field x 8 operators x a value menu per field class x lists; all 121 inter-field pairs x 3 operators; ordered pairs (triples in thorough) of a 16-filter subset; field counts 0..66 with 0/1/3 keys; every syscall number 0..2100 and extremes to 2^64 x {no arch,b64,b32}; number pairs in both -S forms; every name of the syscall tables of all seven ABIs with the expected number taken from gdb's transcription of the kernel's syscall.tbl where it knows the row (refdata/syscalls_gdb.txt); every architecture name x numbers 0..600 and 12 names (gdb tables of 18 ABIs); key filters vs -k keys in every arrangement; the same field twice; file watches x all 16 permission subsets x file/dir/missing x 0-2 keys. A rejected rule is always acceptable; an accepted rule must equal the expectation in flags, action, every (field,operator,value) triple in order, joined keys, buffer layout, buflen, padding, total length and mask bits.",
     RULE_NOTE, "DESIGN.md §5 C06")
 add("C07", EX, "enum-rule",
     "bounded-exhaustive round trip Build -> ToCommandLine -> Parse+Build -> ToCommandLine over the C06 domain restricted to the stated C07 domain",
-    "The C06 enumeration restricted to the property's domain (no whitespace/quotes in strings, watch-shaped rules agreeing with a scratch filesystem, resolveIds=false, amd64) plus every watch-shaped syscall rule (perm + path/dir + key in every order, !=, never, no path), watches through every kind of symlink, rules carrying up to 33 KiB of strings in total, multi-byte text in values and keys: the listed text must be accepted, re-encode to byte-identical wire data and list to the same text again.",
+    "The C06 enumeration restricted to the property's domain (no whitespace/quotes in strings, watch-shaped rules agreeing with a scratch filesystem, resolveIds=false, amd64) plus every watch-shaped syscall rule (perm + path/dir + key in every order, !=, never, no path), watches through every kind of symlink, rules carrying up to 33 KiB of strings in total, multi-byte text and every printable ASCII character in names of existing files / keys: the listed text must be accepted, re-encode to byte-identical wire data and list to the same text again.",
     RULE_NOTE, "DESIGN.md §5 C07")
 add("C13", EX, "enum-rule",
     "bounded-exhaustive enumeration of hostile Rule structs, byte slices (all prefixes, all <=2-word boundary corruptions of valid rules) and rule lines, with crash-isolated workers under ulimit -v and a per-call allocation meter",
-    "Rule structs over invalid lists/actions/filters/syscall strings (across 2047/2048, 2^31, 2^32, 2^63), up to 200 filters, over-long keys and paths, every AccessType, foreign and nil rules; every prefix of 13 valid wire rules; every one of the 260 header words replaced by 26 boundary values (deviation 1) and pairs of 15 structural words x 16 values (deviation 2); all token sequences <=3/4 over 43 line tokens; watches on every kind of link (loop, dangling, below a file). Oracle: value xor error, no panic / hang / worker death, allocation <= 1 MiB + 64 x input, ToCommandLine success implies field_count <= 64 and string lengths within buflen within the slice.",
+    "Rule structs over invalid lists/actions/filters/syscall strings (across 2047/2048, 2^31, 2^32, 2^63), up to 200 filters, over-long keys and paths, every AccessType, foreign and nil rules; every prefix of 13 valid wire rules; every one of the 260 header words replaced by 26 boundary values (deviation 1) and pairs of 15 structural words x 16 values (deviation 2); all token sequences <=3/4 over 43 line tokens; watches on every kind of link (loop, dangling, below a file), a FIFO nobody writes to, a socket, /dev and /proc files; guard-page placements of the decoder input. Oracle: value xor error, no panic / hang / worker death, allocation <= 1 MiB + 64 x input, ToCommandLine success implies field_count <= 64 and string lengths within buflen within the slice.",
     RULE_NOTE + " Workers run under ulimit -v 6 GiB; a worker that dies is re-run in trace mode to name the case.", "DESIGN.md §5 C13")
 add("C14", EX, "enum-rule",
     "bounded-exhaustive enumeration of flag-group sequences against a reference reader of the token list",
-    "All sequences of <=3 (quick, 9.3e4) / <=4 (thorough, 4.2e6) flag groups in any order over a 52-group menu, plus all sequences of <=3 groups in every spelling the flag package accepts (-f arg, -f=arg, --f arg, --f=arg, booleans with explicit values), arguments that exist on disk / go through links, and the multi-byte menu inside every kind of argument; the harness shell-quotes the tokens it chose, a small reference reader of those tokens yields MustReject (mixed kinds, both/neither -a/-A, repeated -a/-A/-w, positional words, -F/-C text without a complete field/operator/value) or the Expected rule (complete text before/at/after the first operator; comma-split lists in order). An error is always acceptable; an accepted line must equal Expected.",
+    "All sequences of <=3 (quick, 9.3e4) / <=4 (thorough, 4.2e6) flag groups in any order over a 52-group menu, plus all sequences of <=3 groups in every spelling the flag package accepts (-f arg, -f=arg, --f arg, --f=arg, booleans with explicit values), arguments that exist on disk / go through links, the multi-byte menu inside every kind of argument, the empty word, and every string of <=5 characters over {a,b,=,comma,!,>} as -F value; the harness shell-quotes the tokens it chose, a small reference reader of those tokens yields MustReject (mixed kinds, both/neither -a/-A, repeated -a/-A/-w, positional words, -F/-C text without a complete field/operator/value) or the Expected rule (complete text before/at/after the first operator; comma-split lists in order). An error is always acceptable; an accepted line must equal Expected.",
     RULE_NOTE, "DESIGN.md §5 C14")
 
 add("C09", EX, "enum-coalesce",
     "bounded-exhaustive enumeration of record groups rendered from structured descriptions with unique tagged values; complete over all 2^16 st_mode values and all 2^16 record types",
-    "(a) all 65536 st_mode values on the PATH record selected for an open event: File block mirrors the PATH, Mode == %04o(mode&07777), object type agrees with S_IFMT for the 7 valid types; (b) every order of every subset of <=3 (quick) / <=4 (thorough) of 8 auxiliary records with the SYSCALL at every position x 6 syscalls x 3 collision modes x with/without EOE: identity from the first record, every (k,v) of every record's own Data() (separate parse) is a leaf of the JSON-flattened event or named by a warning, File block mirrors one PATH consistently; (c) every record type as a single record; (d) error-side groups yield (nil, error); (e) for every record type, 2 and 3 records of that type in one compound event; (f) file names / cwd from the multi-byte menu hex-encoded as the kernel does (File.Path mirrors the bytes).",
+    "(a) all 65536 st_mode values on the PATH record selected for an open event: File block mirrors the PATH, Mode == %04o(mode&07777), object type agrees with S_IFMT for the 7 valid types; (b) every order of every subset of <=3 (quick) / <=4 (thorough) of 8 auxiliary records with the SYSCALL at every position x 6 syscalls x 3 collision modes x with/without EOE: identity from the first record, every (k,v) of every record's own Data() (separate parse) is a leaf of the JSON-flattened event or named by a warning, File block mirrors one PATH consistently; (c) every record type as a single record; (d) error-side groups yield (nil, error); (e) for every record type, 2 and 3 records of that type in one compound event; (f) file names / cwd from the multi-byte menu hex-encoded as the kernel does, relative names (File.Path mirrors the bytes); (g) every native syscall x hex argument sets x success yes/no x two modes; for every record type a group without SYSCALL is an error.",
     "Trusted: the harness's record renderer and reflective flattening of the listed places; refdata S_IF* constants; values are unique tags so containment is exact (short format-constrained values can coincide with other leaves, which only weakens detection).", "DESIGN.md §5 C09")
 add("C15", MC, "seqx-coalesce",
     "explicit enumeration of all call histories over a pool of persistent message groups with differential and snapshot oracles + schedule exploration of concurrent coalescing/ID resolution through the shared caches + free-running -race pass",
-    "Every history of <=3 (quick) / <=4 (thorough) ops over {CoalesceMessages(g), CoalesceMessages(g)+ResolveIDsFromCaches for 12 pooled groups (compound events sharing a record-type normalisation, user and group ALIAS names, a multi-key tag list with a repeat), ResolveIDsFromCaches on an earlier event} against a simulated non-injective account database behind an os/user seam; a sweep over every record type of normalizations.yaml; 70000/300000 unrelated events through the global caches: after every op the inputs' Data/Tags/ToMapStr are unchanged, the event equals the one from a fresh parse (differential), every earlier event equals its snapshot, ResolveIDs equals ResolveIDs on a fresh equal event; whole schedule trees (else preemption-bounded) of 2-3 threads x 1-2 events resolving IDs through the global caches (scheduler points at the cache mutex) equals the sequential result; data races sampled by a -race pass.",
+    "Every history of <=3 (quick) / <=4 (thorough) ops over {CoalesceMessages(g), CoalesceMessages(g)+ResolveIDsFromCaches for 12 pooled groups (compound events sharing a record-type normalisation, user and group ALIAS names, a multi-key tag list with a repeat), ResolveIDsFromCaches on an earlier event} against a simulated non-injective account database behind an os/user seam; the per-call clauses over every group of the C09 enumerations (8e5 groups); a sweep over every record type of normalizations.yaml; 70000/300000 unrelated events through the global caches: after every op the inputs' Data/Tags/ToMapStr are unchanged, the event equals the one from a fresh parse (differential), every earlier event equals its snapshot, ResolveIDs equals ResolveIDs on a fresh equal event; whole schedule trees (else preemption-bounded) of 2-3 threads x 1-2 events resolving IDs through the global caches (scheduler points at the cache mutex) equals the sequential result; data races sampled by a -race pass.",
     "Trusted: shim fidelity; JSON view of Event plus sorted warnings as the equality; account lookups answered by the simulated database (engine/vshim/vuser); single-record one-id events in the concurrent part so that Go's random map iteration cannot perturb the step trace.", "DESIGN.md §5 C15")
 add("C20", EX, "enum-tables",
     "complete enumeration of every table row and of all 65536 record type codes",
-    "All 65536 codes String->GetAuditMessageType and text marshalling; every errno row (alias-safe, numbers vs asm-generic); every arch name/code through Build and ToCommandLine (codes vs linux/audit.h); every name of every per-arch syscall table (duplicates; Build by name sets exactly the table's bit); every rule field x operator and every inter-field pair through Build -> code (= linux/audit.h) -> ToCommandLine -> same name; every record_types / syscalls / has_fields entry of the tree's normalizations.yaml (resolvable, deterministic across loads and across qualifier-field subsets); GetAuditEventType over all types twice and in four visiting orders in fresh processes; nine entry points each as the FIRST library call of a fresh process (digest equals that of a process that has done everything); MarshalText after the caller overwrote the bytes it was given.",
+    "All 65536 codes String->GetAuditMessageType and text marshalling; every errno row (alias-safe, numbers vs asm-generic); every arch name/code through Build and ToCommandLine (codes vs linux/audit.h); every name of every per-arch syscall table (duplicates; Build by name sets exactly the table's bit); every rule field x operator and every inter-field pair through Build -> code (= linux/audit.h) -> ToCommandLine -> same name; every record_types / syscalls / has_fields entry of the tree's normalizations.yaml (resolvable, deterministic across loads and across qualifier-field subsets); GetAuditEventType over all types twice and in four visiting orders in fresh processes; nine entry points each as the FIRST library call of a fresh process (digest equals that of a process that has done everything); MarshalText after the caller overwrote the bytes it was given; every errno spelling through -F exit=-NAME; every architecture name x syscall numbers 0..600 listed and rebuilt.",
     "Trusted: refdata transcriptions; the tree's normalizations.yaml is read from the repository and compared with the embedded copy through three spot events.", "DESIGN.md §5 C20")
 
 def emit():
@@ -108,6 +108,7 @@ def emit():
         "engines": [
             {"name": "instr", "path": "engine/instr", "serves_properties": ids, "kind_free_text": "check-time instrumenter: AST rewrite + go build -overlay, no files added to /repo"},
             {"name": "guard", "path": "engine/guard", "serves_properties": ["C08", "C16", "C17"], "kind_free_text": "buffers flush against PROT_NONE pages + SetPanicOnFault: an access outside the buffer faults"},
+            {"name": "harvest", "path": "engine/harvest", "serves_properties": ["C01", "C02", "C03", "C04", "C05", "C10", "C11", "C12", "C17", "C19"], "kind_free_text": "reads string literals, folded integer constants and AUDIT_ identifiers from the tree under test at check time; generators turn them into tokens, record types and scale scenarios"},
             {"name": "sched", "path": "engine/vshim/sched", "serves_properties": ["C11", "C15", "C17", "C18"], "kind_free_text": "controlled cooperative scheduler + stateless DFS over schedules with iterative preemption bounding"},
             {"name": "sched-conc", "path": "checks/conc", "serves_properties": ["C11"], "kind_free_text": "schedule exploration of Reassembler driver programs + free-running race pass"},
             {"name": "envdfs-client", "path": "checks/client", "serves_properties": ["C08", "C17"], "kind_free_text": "deviation-bounded environment DFS over a simulated kernel (engine/ksim, engine/envdfs)"},
